@@ -494,11 +494,20 @@ def check(prop, tier, only=None, keep=False):
                 pu.sort(key=lambda u: -u.get("cost", 1))
                 log("[check] kani: %d obligation(s) in %s, -j %d, harness timeout %ds" % (len(pu), pkg, min(jobs, len(pu)), timeout))
                 # batches bound kani-driver's memory (it keeps every harness's CBMC output in RAM)
-                chunk = int(os.environ.get("VERIF_CHUNK", "36"))
+                chunk = int(os.environ.get("VERIF_CHUNK", "24"))
                 batches = [pu[i::max(1, (len(pu) + chunk - 1) // chunk)] for i in range(max(1, (len(pu) + chunk - 1) // chunk))]
                 for bi, batch in enumerate(batches):
                     log("[check]   batch %d/%d: %d obligation(s)" % (bi + 1, len(batches), len(batch)))
-                    res, out, wall, tl = run_kani(cat, dst, scratch, pkg, batch, timeout, min(jobs, len(batch)), feats)
+                    try:
+                        res, out, wall, tl = run_kani(cat, dst, scratch, pkg, batch, timeout, min(jobs, len(batch)), feats)
+                    except Undecided as e:
+                        if "compile-error" in str(e):
+                            raise
+                        # kani-driver itself died (e.g. after one of its solvers was killed): the batch is
+                        # undecided, the other batches still count
+                        res, tl = {}, {}
+                        for u in batch:
+                            res[u["name"]] = dict(status="missing", checks=[], reason="batch lost: " + str(e)[-300:].replace("\n", " | "))
                     tools.update(tl)
                     results.update(res)
         if verus_units:
